@@ -1,0 +1,6 @@
+//go:build !verif
+
+package common
+
+// verifHook is the disabled verification hook: an empty function that the compiler inlines away.
+func verifHook(point string, args ...any) {}
